@@ -21,6 +21,7 @@ import (
 	"io"
 	"net/http"
 	"net/url"
+	"path"
 	"strconv"
 	"strings"
 	"sync"
@@ -231,7 +232,10 @@ func checkUploadIDRepo(id, repo string) error {
 	if err != nil {
 		return nil // Invalid IDs are dealt with by the caller.
 	}
-	rest, ok := strings.CutPrefix(u.Path, "/v2/")
+	// Note: look at the path as a server (or something in front of it that
+	// cleans paths, such as http.ServeMux) will understand it: //v2/...
+	// and /x/../v2/... are other ways of spelling /v2/...
+	rest, ok := strings.CutPrefix(path.Clean("/"+u.Path), "/v2/")
 	if !ok {
 		return nil
 	}
